@@ -28,6 +28,8 @@ def configs(tier, seed=0):
                 for d in [3] + ([4] if tier == 'thorough' else []):
                     if (order == 2 and bc == 'neumann') or (order == 0 and bc != 'zero'):
                         continue     # the GMRF's own rank / log-determinant are defective there (KF-C20-gmrf-*): no meaningful target density
+                    if tier == 'quick' and bc != 'zero' and not ((iface, bc, order) in (('exp', 'periodic', 1), ('legacy', 'neumann', 1))):
+                        continue     # rank-deficient pairs are listed findings whose counterexample search costs ~50 s each: one per bc in the quick tier
                     out.append({'key': '%s/gmrf/%s/o%d/d%d' % (iface, bc, order, d), 'kind': 'pair', 'iface': iface, 'family': 'GMRF', 'bc': bc, 'order': order, 'dim': d, 'mean': 'sym'})
                     if bc == 'zero' and order == 1:
                         out.append({'key': '%s/gmrf/%s/o%d/d%d/mean-scalar0' % (iface, bc, order, d), 'kind': 'pair', 'iface': iface, 'family': 'GMRF', 'bc': bc, 'order': order, 'dim': d,
